@@ -192,6 +192,9 @@ class StmtMixin:
     def exec_stmt(self, node, st):
         self.cur_state = st
         self.cur_node = node
+        if len(self.frames) == 1 and not self.spec_mode:
+            # statement coverage of the function under contract by the explored paths (reported, see verify.py)
+            self.stmt_lines.add(getattr(node, 'lineno', 0))
         m = getattr(self, 'ex_' + type(node).__name__, None)
         if m is None:
             raise Unsupported('statement %s at line %s in %s' % (
